@@ -108,7 +108,22 @@ def gen(rng, tier):
         # where else does the last component of a configured path occur?
         elsewhere = any(q[-1] == p[-1] and q != p for p in names for q in pa + pb)
         nt = any(p in both for p in names)
-        yield {"k": "merge", "a": a, "optsA": [], "steps": [{"b": b, "opts": opts}],
+        if rng.chance(0.2):
+            # wildcard paths next to the exact ones: '**' (any depth) and '*' (one level)
+            leafk = rng.pick(KEYS)
+            wname = rng.pick(["**." + leafk, "*." + leafk, "**", rng.pick(KEYS) + ".**." + leafk, "**." + leafk + ".*"])
+            wopt = opt(rng.pick(FIELD), [wname])
+            pos = rng.below(len(opts) + 1) if sep_first else rng.below(len(opts))
+            pos = max(pos, 1) if sep_first else pos
+            opts.insert(pos, wopt)
+            kinds.append("wild")
+        steps = [{"b": b, "opts": opts}]
+        if rng.chance(0.15):
+            # the same option values used again for a second merge onto a fresh A, this time only some of them
+            keep = [o for o in opts if o["o"] in ("PathSep",) or not o["o"].startswith("Field") or rng.chance(0.5)]
+            steps.append({"restart": True, "b": b, "opts": keep})
+            kinds.append("reuse")
+        yield {"k": "merge", "a": a, "optsA": [], "steps": steps,
                "_tag": "field/" + (g or "default"),
                "_sig": "%s|%s|%s|%s|%s|%s" % (g, "+".join(kinds), max(len(p) for p in names), elsewhere, sep_first,
                                               ",".join(sorted(conflict_sig(a, b)))),
